@@ -24,6 +24,10 @@ func init() {
 			"ExecutionEngine.Execute reaches planning only through the success edges of normalization (when needed), then of ValidateForSchema (err == nil ∧ Valid), and reaches the resolver only when planning reported no error; ValidateForSchema validates with DefaultOperationValidator and the validator reports Invalid whenever the report has errors. " +
 			"It does not decide accept ⇔ spec-valid for all documents (that is the rules' own logic).",
 		Mutants: []Mutant{
+			{Name: "the items of a list literal are validated against the item type with its non-null stripped (reverts part of the F90 fix)", File: "v2/pkg/astvalidation/operation_rule_values.go", Rule: "C04-R18", Key: "valuesVisitor.valueSatisfiesListType/items-held-to-the-declared-item-type",
+				Old: "\t// the items are held to the item type as it is declared: null, or a nullable variable,\n\t// is not an item of an [item!] list ([], the empty list, is)\n", New: "\tif v.definition.Types[listItemType].TypeKind == ast.TypeKindNonNull {\n\t\tlistItemType = v.definition.Types[listItemType].OfType\n\t}\n"},
+			{Name: "a variable at an enum location is accepted without a look at its type (reverts part of the F90 fix)", File: "v2/pkg/astvalidation/operation_rule_values.go", Rule: "C04-R18", Key: "valuesVisitor.valueSatisfiesEnum/variable-arm-walks-the-type",
+				Old: "\tif value.Kind == ast.ValueKindVariable {\n\t\treturn v.variableValueSatisfiesDefinitionType(value, definitionTypeRef)\n\t}\n\n\tif value.Kind == ast.ValueKindString && v.allowStringLiteralsForEnums {", New: "\tif value.Kind == ast.ValueKindVariable {\n\t\treturn true\n\t}\n\n\tif value.Kind == ast.ValueKindString && v.allowStringLiteralsForEnums {"},
 			{Name: "a leaf field is no longer compared with recorded enum / composite fields (reverts part of the F89 fix)", File: "v2/pkg/astvalidation/operation_rule_field_selection_merging.go", Rule: "C04-R17", Key: "fieldSelectionMergingVisitor.EnterField/scalar-arm-consults:nonScalarRequirements",
 				Old: "\tif nonScalars := f.NonScalarRequirementsByPathField(path, objectName); len(nonScalars) != 0 {\n\t\tf.stopWithTypesMismatch(objectName, f.nonScalarRequirements[nonScalars[0]].fieldTypeRef, fieldType)\n\t\treturn\n\t}\n", New: ""},
 			{Name: "types that cannot be the same object are not compared at all (reverts part of the F89 fix)", File: "v2/pkg/astvalidation/operation_rule_field_selection_merging.go", Rule: "C04-R17", Key: "fieldSelectionMergingVisitor.EnterField/types-compared-in-both-arms",
@@ -97,6 +101,7 @@ func runC04(r *fw.Run) {
 	defer c04MergeDecisionsReadTheArguments(r)
 	defer c04NumberLiteralsAreReadWithTheirSign(r)
 	defer c04ResponseShapeTablesMeet(r)
+	defer c04VariablesAndItemsMeetTheDeclaredType(r)
 	p := r.Prog
 	pk := p.Pkg("astvalidation")
 	if pk == nil {
@@ -1552,4 +1557,256 @@ func c04ResponseShapeTablesMeet(r *fw.Run) {
 	}
 	r.Check(comparesTypes(sameObj.Body) && comparesTypes(sameObj.Else), "C04-R17", fi.Name()+"/types-compared-in-both-arms", p.Pos(sameObj.Pos()), "both arms of the same-object test on the returned types compare the recorded and the current field type",
 		"one arm of the test \"can the two returned types be the same object\" never hands the recorded field type to a comparison: for two different object types the list / non-null levels are not compared — `{ pet { ... on Dog { x: dogs { name } } ... on Cat { x: cat { name } } } }` (`[Dog]` next to `Cat`) is admitted, as are two different enums")
+}
+
+// c04VariablesAndItemsMeetTheDeclaredType (R18): All Variable Usages Are Allowed / Values of Correct Type hold at every
+// depth of a literal. (a) The Values rule has one level-by-level compatibility walk between a variable's type and the type
+// of its location (the function R9 looks at). Wherever a function of the rule's visitor finds that a value is a variable
+// (an arm under `Kind == ValueKindVariable`, as an if or as a switch clause), every exit of that arm returns the constant
+// false or has passed a call of the walk, or of a function for which the same holds on all paths (least fixed point) — a
+// comparison of the innermost type names alone admits `[Int]` where `Int` is expected. Only the boolean validators are
+// looked at; the callback for a variable as the whole argument value reports and returns nothing. (b) Where such a function ranges
+// over the items of a list literal, the type handed to the per-item check is exactly one OfType step below the function's
+// type parameter: a second step strips the item type's non-null, and `[1, null]` passes for `[Int!]`.
+func c04VariablesAndItemsMeetTheDeclaredType(r *fw.Run) {
+	p := r.Prog
+	r.Rule("C04-R18", "in the Values rule every arm that handles a variable passes, before any exit that does not return false, the level-by-level type compatibility walk (directly or through a callee that does on all paths); the type handed to the per-item check of a list literal is exactly one OfType step below the location's type")
+	// the walks (as for R9): two int parameters, a loop that advances one of them through OfType
+	isWalk := map[*types.Func]bool{}
+	var visitorFuncs []*fw.FuncInfo
+	for _, fi := range p.Funcs("astvalidation") {
+		if fw.RecvNameOfFunc(fi.Obj) == "valuesVisitor" {
+			visitorFuncs = append(visitorFuncs, fi)
+		}
+		info := fi.Info()
+		sig := fi.Obj.Type().(*types.Signature)
+		var refs []*types.Var
+		for i := 0; i < sig.Params().Len(); i++ {
+			if types.Identical(sig.Params().At(i).Type(), types.Typ[types.Int]) {
+				refs = append(refs, sig.Params().At(i))
+			}
+		}
+		if len(refs) < 2 {
+			continue
+		}
+		fw.WalkAll(fi.Decl.Body, func(nd ast.Node) bool {
+			loop, ok := nd.(*ast.ForStmt)
+			if !ok {
+				return true
+			}
+			fw.WalkAll(loop.Body, func(m ast.Node) bool {
+				as, isAs := m.(*ast.AssignStmt)
+				if !isAs || len(as.Lhs) != len(as.Rhs) {
+					return true
+				}
+				for i, l := range as.Lhs {
+					if id, isID := l.(*ast.Ident); isID {
+						for _, pv := range refs {
+							if info.ObjectOf(id) == pv {
+								if fv, _ := fw.Field(info, as.Rhs[i]); fv != nil && fv.Name() == "OfType" {
+									isWalk[fi.Obj] = true
+								}
+							}
+						}
+					}
+				}
+				return true
+			})
+			return true
+		})
+	}
+	nWalks := 0
+	for fn := range isWalk {
+		if fw.RecvNameOfFunc(fn) == "valuesVisitor" {
+			nWalks++
+		}
+	}
+	r.Expect("C04-R18", "level-by-level type compatibility walks of the Values visitor", nWalks, 1)
+	mustWalk := map[*types.Func]bool{}
+	isVariableConst := func(info *types.Info, e ast.Expr) bool {
+		c := fw.ConstObj(info, e)
+		return c != nil && c.Name() == "ValueKindVariable"
+	}
+	type armExit struct {
+		pos token.Pos
+		ok  bool
+	}
+	analyse := func(fi *fw.FuncInfo) (allExitsOK bool, arms []armExit) {
+		info := fi.Info()
+		allExitsOK = true
+		in := fw.NewInterp(fi)
+		in.H = fw.Hooks{
+			Lit: func(l *ast.FuncLit, ctx fw.LitCtx, st *fw.State) fw.LitMode { return fw.LitSkip },
+			Cond: func(e ast.Expr, branch bool, st *fw.State) {
+				a := fw.Atom(info, e, branch)
+				if a.Kind == "Eq" && isVariableConst(info, a.Y) {
+					st.Set("variable-arm")
+				}
+			},
+			Case: func(tag ast.Expr, vals []ast.Expr, match bool, st *fw.State) {
+				if !match {
+					return
+				}
+				for _, v := range vals {
+					if isVariableConst(info, v) {
+						st.Set("variable-arm")
+					}
+				}
+			},
+			Node: func(nd ast.Node, st *fw.State) {
+				if c, ok := nd.(*ast.CallExpr); ok {
+					if fn := fw.Callee(info, c); fn != nil && (isWalk[fn] || mustWalk[fn]) {
+						st.Set("walked")
+					}
+				}
+			},
+			Exit: func(ret *ast.ReturnStmt, lit *ast.FuncLit, st *fw.State) {
+				if lit != nil || !in.Final() {
+					return
+				}
+				ok := st.Must("walked")
+				if !ok && ret != nil && len(ret.Results) == 1 {
+					if v, isConst := fw.ConstVal(info, ret.Results[0]); isConst && v == "false" {
+						ok = true
+					}
+				}
+				if !ok {
+					allExitsOK = false
+				}
+				if st.Must("variable-arm") {
+					pos := fi.Decl.End()
+					if ret != nil {
+						pos = ret.Pos()
+					}
+					arms = append(arms, armExit{pos, ok})
+				}
+			},
+		}
+		in.Run(nil)
+		return
+	}
+	for changed := true; changed; {
+		changed = false
+		for _, fi := range visitorFuncs {
+			if mustWalk[fi.Obj] || isWalk[fi.Obj] {
+				continue
+			}
+			if ok, _ := analyse(fi); ok {
+				mustWalk[fi.Obj] = true
+				changed = true
+			}
+		}
+	}
+	nArms := 0
+	for _, fi := range visitorFuncs {
+		if sig := fi.Obj.Type().(*types.Signature); sig.Results().Len() != 1 || !types.Identical(sig.Results().At(0).Type(), types.Typ[types.Bool]) {
+			// the visitor callbacks (EnterArgument: a variable as the whole argument value) report and return nothing; not decided here
+			continue
+		}
+		_, arms := analyse(fi)
+		if len(arms) == 0 {
+			continue
+		}
+		nArms++
+		bad := token.NoPos
+		for _, a := range arms {
+			if !a.ok && (bad == token.NoPos || a.pos < bad) {
+				bad = a.pos
+			}
+		}
+		at := p.Pos(fi.Decl.Pos())
+		if bad != token.NoPos {
+			at = p.Pos(bad)
+		}
+		r.Check(bad == token.NoPos, "C04-R18", fi.Name()+"/variable-arm-walks-the-type", at, "every exit of the variable arm of "+fi.Name()+" has compared the variable's type with the location's, level by level (or returns false)",
+			fi.Name()+" leaves its variable arm without the level-by-level type comparison: a variable inside a list or input object literal is then admitted by the name of its innermost type, or by its default value alone — `query($a: [Int]) { arg(list: [$a]) }` (`[Int]` where `Int` is expected), `query($a: String = \"x\") { arg(in: {id: $a}) }` (String where ID is expected) pass validation")
+	}
+	r.Expect("C04-R18", "functions of the Values visitor with a variable arm", nArms, 5)
+	// (b) list items
+	nLoops := 0
+	for _, fi := range visitorFuncs {
+		info := fi.Info()
+		sig := fi.Obj.Type().(*types.Signature)
+		depth := map[types.Object]int{}
+		for i := 0; i < sig.Params().Len(); i++ {
+			if types.Identical(sig.Params().At(i).Type(), types.Typ[types.Int]) {
+				depth[sig.Params().At(i)] = 0
+			}
+		}
+		// OfType depth of the locals, flow-insensitive, maximum over their assignments (capped)
+		ofTypeOf := func(e ast.Expr) (types.Object, bool) {
+			fv, sel := fw.Field(info, e)
+			if fv == nil || fv.Name() != "OfType" {
+				return nil, false
+			}
+			ix, ok := ast.Unparen(sel.X).(*ast.IndexExpr)
+			if !ok {
+				return nil, false
+			}
+			id, ok := ast.Unparen(ix.Index).(*ast.Ident)
+			if !ok {
+				return nil, false
+			}
+			return info.ObjectOf(id), true
+		}
+		for round := 0; round < 4; round++ {
+			fw.WalkAll(fi.Decl.Body, func(nd ast.Node) bool {
+				as, ok := nd.(*ast.AssignStmt)
+				if !ok || len(as.Lhs) != len(as.Rhs) {
+					return true
+				}
+				for i, l := range as.Lhs {
+					id, isID := l.(*ast.Ident)
+					if !isID {
+						continue
+					}
+					if src, isOf := ofTypeOf(as.Rhs[i]); isOf {
+						if d, known := depth[src]; known && d+1 > depth[info.ObjectOf(id)] && d < 3 {
+							depth[info.ObjectOf(id)] = d + 1
+						}
+					}
+				}
+				return true
+			})
+		}
+		fw.WalkAll(fi.Decl.Body, func(nd ast.Node) bool {
+			rs, ok := nd.(*ast.RangeStmt)
+			if !ok {
+				return true
+			}
+			fv, sel := fw.Field(info, rs.X)
+			if fv == nil || fv.Name() != "Refs" {
+				return true
+			}
+			if _, tn := fw.FieldOwner(info, sel); tn != "ListValue" {
+				return true
+			}
+			fw.WalkAll(rs.Body, func(m ast.Node) bool {
+				c, isC := m.(*ast.CallExpr)
+				if !isC {
+					return true
+				}
+				fn := fw.Callee(info, c)
+				if fn == nil || fw.RecvNameOfFunc(fn) != "valuesVisitor" {
+					return true
+				}
+				for _, a := range c.Args {
+					id, isID := ast.Unparen(a).(*ast.Ident)
+					if !isID {
+						continue
+					}
+					d, known := depth[info.ObjectOf(id)]
+					if !known || d == 0 {
+						continue
+					}
+					nLoops++
+					r.Check(d == 1, "C04-R18", fi.Name()+"/items-held-to-the-declared-item-type", p.Pos(c.Pos()), "the type handed to the per-item check in "+fi.Name()+" is one OfType step below the list type",
+						"the type handed to the per-item check has been advanced through OfType more than once ("+id.Name+"): the item type's non-null is stripped before the items are looked at — `{ arg(nn: [1, null]) }` and `query($a: Int) { arg(nn: [$a]) }` pass validation for `nn: [Int!]`")
+				}
+				return true
+			})
+			return true
+		})
+	}
+	r.Expect("C04-R18", "per-item checks of list literals in the Values visitor", nLoops, 1)
 }
